@@ -86,7 +86,6 @@ Fn(op, sp, N, ES, x) ==
     [] op = "is_one" -> x[1] = POne(N)
     [] op \in {"is_nar", "is_nan", "is_infinite"} -> IsNaR(N, x[1])
     [] op \in {"is_finite", "is_normal"} -> ~IsNaR(N, x[1])
-    [] op = "is_negative" -> PIsNeg(N, ES, x[1])
     [] op = "classify" -> PClass(N, x[1])
     [] op = "from_f32" -> PFromFloat(N, ES, F32, x[1])
     [] op = "from_f64" -> PFromFloat(N, ES, F64, x[1])
@@ -101,7 +100,7 @@ FnOps == {"add", "sub", "mul", "div", "rem", "div_euclid", "rem_euclid", "neg", 
           "mul_add", "mul_sub", "sub_product", "sqrt", "round", "floor", "ceil", "trunc", "fract",
           "min", "max", "clamp", "abs", "signum", "abs_sub", "eq", "ne", "lt", "le", "gt", "ge",
           "cmp", "partial_cmp", "is_zero", "is_one", "is_nar", "is_nan", "is_infinite", "is_finite",
-          "is_normal", "is_negative", "classify", "from_f32", "from_f64",
+          "is_normal", "classify", "from_f32", "from_f64",
           "f64_roundtrip", "str_roundtrip", "new", "load", "to_p8", "to_p16", "to_p32", "const"} \cup IntOps
 
 \* operations specified by a relation between operands and result
@@ -110,6 +109,7 @@ Rel(op, sp, N, ES, x, r) ==
     [] op = "is_sign_negative" -> IsNaR(N, x[1]) \/ r = PIsNeg(N, ES, x[1])
     [] op = "is_sign_positive" -> IsNaR(N, x[1]) \/ r = ~PIsNeg(N, ES, x[1])
     [] op = "is_positive" -> IsNaR(N, x[1]) \/ r = ~PIsNeg(N, ES, x[1])
+    [] op = "is_negative" -> IsNaR(N, x[1]) \/ r = PIsNeg(N, ES, x[1])
     [] op = "to_f32" -> PToFloatOk(N, ES, F32, x[1], r)
     [] op = "to_f64" -> PToFloatOk(N, ES, F64, x[1], r)
     [] op \in {"to_i32", "to_u32", "to_i64", "to_u64", "to_isize", "to_usize"} ->
@@ -118,7 +118,7 @@ Rel(op, sp, N, ES, x, r) ==
          IsNaR(N, x[1]) \/ r = Low(PToInt(N, ES, 32, TRUE, x[1]), IntW(op))
     [] op \in {"to_u8", "to_u16"} ->
          IsNaR(N, x[1]) \/ r = Low(PToInt(N, ES, 32, FALSE, x[1]), IntW(op))
-RelOps == {"copysign", "is_sign_negative", "is_sign_positive", "is_positive", "to_f32", "to_f64",
+RelOps == {"copysign", "is_sign_negative", "is_sign_positive", "is_positive", "is_negative", "to_f32", "to_f64",
            "to_i32", "to_u32", "to_i64", "to_u64", "to_isize", "to_usize",
            "to_i8", "to_i16", "to_u8", "to_u16"}
 
